@@ -301,6 +301,8 @@ void run_t(vf::Ctx& c)
     int const unwritable = path_draw == 0 ? 1 : (path_draw == 1 ? 2 : 0);
     if (unwritable == 1) { c.label("unwritable-checkpoint-path"); c.desc << " unwritable-path"; }
     if (unwritable == 2) { c.label("empty-file-name"); c.desc << " empty-file-name"; }
+    // (C20 does not read checkpoints back, so a name with a line break - which the text format cannot carry - is admissible here)
+    if (!cfg.fn.dists.empty() && t.pick(6) == 1) { cfg.fn.dists[0].name = "two\nlines"; c.label("distribution-name-with-line-break"); }
     bool const fewer_dists = t.pick(4) == 1 && !cfg.fn.dists.empty() && calls.size() >= 2;
     if (fewer_dists) { c.label("continued-with-fewer-distributions"); c.desc << " continued-with-one-distribution-less"; }
     using E = std::mt19937;
